@@ -120,7 +120,7 @@ func generate(r *simkit.Rand, prop, tier string) *simkit.Plan {
 	}
 	if prop == "C10" {
 		w[4], w[5], w[6] = 0, 0, 0
-		w[7], w[8], w[9], w[10] = r.Range(1, 3), r.Range(0, 2), r.Range(4, 14), r.Range(1, 3)
+		w[7], w[8], w[9], w[10] = r.Range(1, 3), r.Range(1, 3), r.Range(4, 14), r.Range(1, 3)
 		n = r.Range(15, 70)
 	}
 	if withWorkers && r.Chance(0.4) {
